@@ -58,8 +58,11 @@ def events(tier, depth_left):
     ev.append(["sample", [[3, 10]], "a"])       # override a's choices
     ev.append(["sample", [[1, 20, 5]], "c"])    # an additional argument
     ev.append(["sample", [[2, 10], [1, 10]], "k"])  # an extra constant
-    ev.append(["sample_np", 2, 7])
-    ev.append(["sample_np", 1, 8])
+    # the numpy random-choice path: one long-lived Sampler whose choices are
+    # plain lists, with and without other lists given for one run only
+    ev.append(["sample_np", 2, 7, None])
+    ev.append(["sample_np", 1, 8, [3, 4]])
+    ev.append(["sample_np", 2, 9, [5]])
     # crop runs: draws, batchsize, reaped through the long-lived Crop object
     # (else a Crop rebuilt from disk), a constant given for this sow only
     # that the Runner also stores
@@ -90,6 +93,8 @@ class World:
         self.rows = []  # reference model
         self.s = self.new_sampler()
         self.s2 = self.new_sampler()
+        self.snp = None
+        self.snp_used = set()
         self.last = self.s
 
     def new_sampler(self, scripted=True):
@@ -158,12 +163,19 @@ class World:
                 s[0], s[1], s[2] if over == "c" else None,
                 4 if over == "k" else None) for s in seq]
         elif kind == "sample_np":
-            _, n, seed = ev
-            s2 = self.new_sampler(scripted=False)
-            s2._full_df = None
+            _, n, seed, over = ev
+            if self.snp is None:
+                self.snp = self.new_sampler(scripted=False)
+            s2 = self.snp
+            self.snp_used.add(repr(over))
             np.random.seed(seed)
+            allowed_a = CH["a"] if over is None else over
             try:
-                last = s2.sample_combos(n, verbosity=0)
+                if over is None:
+                    last = s2.sample_combos(n, verbosity=0)
+                else:
+                    last = s2.sample_combos(n, combos={"a": list(over)},
+                                            verbosity=0)
             except Exception as e:
                 return [("raised:" + type(e).__name__,
                          "sample_combos (random choice) raised %r" % e)]
@@ -171,9 +183,10 @@ class World:
             got = cmp.df_rows(last)
             new_rows = []
             for r in got:
-                if r["a"] not in CH["a"] or r["b"] not in CH["b"]:
+                if r["a"] not in allowed_a or r["b"] not in CH["b"]:
                     vio.append(("choice-outside", "drew %r outside the "
-                                "allowed choices" % (r,)))
+                                "choices allowed in this run (a in %r)"
+                                % (r, allowed_a)))
                 new_rows.append(self.expect_row(r["a"], r["b"]))
             if len(got) != n:
                 vio.append(("run-length", "%d rows for n=%d" % (len(got), n)))
@@ -268,7 +281,7 @@ class World:
         # wrote last (objects may hold hidden state: merging histories that
         # differ in them would hide what they do next)
         key = core.jhash([want, sorted(getattr(self, "crops", {})),
-                          self.last is self.s2])
+                          self.last is self.s2, sorted(self.snp_used)])
         return vio, key
 
 
